@@ -56,6 +56,7 @@ type corpusOpts struct {
 	GoFlags   map[string]any
 	CapsOverride func(c *amCaps)
 	Tag       string
+	NoAimed   bool
 }
 
 type corpus struct {
@@ -93,6 +94,21 @@ func buildCorpus(r *Run, o corpusOpts) *corpus {
 			cs := &corpusSchema{ID: sid, Format: format, AM: am, Docs: map[string][]amDoc{}, Faults: map[string][]amDoc{}, GoTypes: map[string]bool{}, Contexts: map[string]languages.Context{}}
 			c.prepare(cs, rng)
 			c.Schemas = append(c.Schemas, cs)
+		}
+	}
+	if !o.NoAimed {
+		for _, format := range o.Formats {
+			caps := capsFor(format)
+			if o.CapsOverride != nil {
+				o.CapsOverride(&caps)
+			}
+			for ai, am := range aimedAMs(caps) {
+				sid := fmt.Sprintf("s%04d", idx)
+				idx++
+				cs := &corpusSchema{ID: sid, Format: format, AM: am, Docs: map[string][]amDoc{}, Faults: map[string][]amDoc{}, GoTypes: map[string]bool{}, Contexts: map[string]languages.Context{}}
+				c.prepare(cs, newRNG("aimed", o.Tag, r.Seed, ai, format))
+				c.Schemas = append(c.Schemas, cs)
+			}
 		}
 	}
 	return c
@@ -306,6 +322,51 @@ func mk[T any, PT interface {
 	}
 }
 
+// mkS: types generated without Equals/Validate (flags off)
+func mkS[T any, PT interface {
+	*T
+	UnmarshalJSONStrict([]byte) error
+}](newDefault func() *T) typeOps {
+	return typeOps{
+		roundtrip: func(doc []byte, r *resp) {
+			var v T
+			stage = "json.Unmarshal"
+			if err := json.Unmarshal(doc, &v); err != nil {
+				r.DecodeErr = err.Error()
+			} else {
+				stage = "json.Marshal"
+				out, err := json.Marshal(v)
+				if err != nil {
+					r.MarshalErr = err.Error()
+				}
+				r.Out = out
+			}
+			var s T
+			stage = "UnmarshalJSONStrict"
+			if err := PT(&s).UnmarshalJSONStrict(doc); err != nil {
+				r.StrictErr = err.Error()
+			} else {
+				out, err := json.Marshal(s)
+				if err == nil {
+					r.StrictOut = out
+				}
+			}
+		},
+		equals: func(a, b []byte, r *resp) { r.Unknown = true },
+		deflt: func(r *resp) {
+			if newDefault == nil {
+				r.Unknown = true
+				return
+			}
+			out, err := json.Marshal(newDefault())
+			if err != nil {
+				r.MarshalErr = err.Error()
+			}
+			r.Out = out
+		},
+	}
+}
+
 var registry = map[string]typeOps{
 %s
 }
@@ -401,15 +462,19 @@ func (c *corpus) buildGoDriver() error {
 					continue
 				}
 				ms := methods[o.Name]
+				helper := "mk"
 				if !(ms["UnmarshalJSONStrict"] && ms["Validate"] && ms["Equals"]) {
-					c.r.Count("corpus.go_objects_without_method_set(skipped)", 1)
-					continue
+					if !ms["UnmarshalJSONStrict"] {
+						c.r.Count("corpus.go_objects_without_method_set(skipped)", 1)
+						continue
+					}
+					helper = "mkS"
 				}
 				nf := "nil"
 				if news[o.Name] {
 					nf = fmt.Sprintf("p_%s.New%s", cs.ID, o.Name)
 				}
-				fmt.Fprintf(&entries, "\t%q: mk[p_%s.%s](%s),\n", cs.ID+"."+o.Name, cs.ID, o.Name, nf)
+				fmt.Fprintf(&entries, "\t%q: %s[p_%s.%s](%s),\n", cs.ID+"."+o.Name, helper, cs.ID, o.Name, nf)
 				cs.GoTypes[o.Name] = true
 				used = true
 				n++
